@@ -1,471 +1,251 @@
-"""C15 -- interfeatures, introns, splice sites: exact gap geometry."""
+"""C15 -- interfeatures, introns, splice sites: exact gap geometry.
+
+Decided by abstract evaluation (no execution) of FeatureDB.interfeatures /
+create_introns / create_splice_sites on small lists of features whose
+coordinates sit on the threshold points of the order predicates involved
+(gap of 2, 1, 0, -1 bases; equal and different seqids and strands) and whose
+attributes are symbolic.  What is yielded -- coordinates, type, strand,
+attributes, the arguments handed to merge_attributes and to children() -- is
+compared with what the property prescribes.
+"""
 import ast
-import re
 
-from ..cfg import cfg_of
-from ..model import norm, parents, enclosing
-from ..util import require_func, calls_in, call_attr, is_name, const_str, kwarg, guards_of
-
-
-def affine(e, alias=None):
-    """(base source text, constant) for  base [+|-] const ; .stop -> .end"""
-    alias = alias or {}
-    if isinstance(e, ast.BinOp) and isinstance(e.op, (ast.Add, ast.Sub)):
-        sign = 1 if isinstance(e.op, ast.Add) else -1
-        if isinstance(e.right, ast.Constant) and isinstance(e.right.value, int):
-            b, c = affine(e.left, alias)
-            return b, c + sign * e.right.value
-        if isinstance(e.left, ast.Constant) and isinstance(e.left.value, int) and sign == 1:
-            b, c = affine(e.right, alias)
-            return b, c + e.left.value
-    s = norm(e)
-    if s.endswith(".stop"):
-        s = s[:-5] + ".end"
-    return s, 0
+from ..absint import Interp, Sym, Opaque, Unsupported
+from ..model import norm
+from ..util import require_func
 
 
-def slot_stores(fnode, dictname, key):
-    out = []
-    for n in ast.walk(fnode):
-        if isinstance(n, (ast.Assign, ast.AugAssign)):
-            t = n.targets[0] if isinstance(n, ast.Assign) else n.target
-            if isinstance(t, ast.Subscript) and is_name(t.value, dictname) and const_str(t.slice) == key:
-                out.append(n)
-    return sorted(out, key=lambda n: n.lineno)
+def feat(name, chrom, start, end, strand="+", ft="exon", attrs=None):
+    F = Opaque(name, "Feature")
+    F.attrs.update(dict(id=name, seqid=chrom, source="src", featuretype=ft, start=start, end=end, score=".", strand=strand, frame=".",
+                        attributes=attrs if attrs is not None else {"ID": [name]}, extra=[], bin=1, dialect=None, keep_order=False,
+                        sort_attribute_values=False))
+    return F
 
 
-def r1_r2(ctx):
-    f = require_func(ctx, "interface.FeatureDB.interfeatures")
-    prep = [g for lst in f.nested.values() for g in lst if g.name == "_prep_for_yield"]
-    ctx.require(prep, "anchor vanished: interfeatures.<locals>._prep_for_yield")
-    prep = prep[0]
-    ctx.touch(prep)
-    loops = [n for n in f.node.body if isinstance(n, ast.For)]
-    ctx.require(loops, "interfeatures has no top-level loop over the features")
-    loop = loops[-1]
-    fv = loop.target.elts[-1].id if isinstance(loop.target, ast.Tuple) else loop.target.id
-    # which local dict is finalised: argument of the _prep_for_yield call that is followed by the gap-coordinate stores
-    pcalls = [c for c in calls_in(f.node) if is_name(c.func, "_prep_for_yield") and loop in list(parents(c))]
-    ctx.floor("R1", len(pcalls), 1, "finalisation calls in interfeatures")
-    main = pcalls[-1]
-    dname = main.args[0].id if main.args and isinstance(main.args[0], ast.Name) else None
-    ctx.require(dname, "_prep_for_yield is not called with a local dict")
-    dparam = [p for p in prep.params][0]
-    pcfg = cfg_of(prep)
-    ctor = [c for c in calls_in(prep.node) if call_attr(c) == "_feature_returner"]
-    ctx.require(ctor, "_prep_for_yield no longer builds the feature through _feature_returner")
-    cn = pcfg.node_for(ctor[0]).id
-    prev = None
-    asg_prev = [n for n in ast.walk(loop) if isinstance(n, ast.Assign) and isinstance(n.targets[0], ast.Name) and is_name(n.value, fv)]
-    prevs = {n.targets[0].id for n in asg_prev}
-    ctx.require(len(prevs) == 1, "interfeatures no longer keeps the previous feature in one local (%s)" % sorted(prevs))
-    prev = prevs.pop()
-    tail = loop.body[-1]
-    ok = isinstance(tail, ast.Assign) and is_name(tail.targets[0], prev) and is_name(tail.value, fv)
-    ctx.ob("R1", ok, "after each pair the current feature becomes the previous one", node=tail, func=f,
-           sig="end of pass: %s" % norm(tail))
-    final = {}
-    at_test = {}
-    tests = [n for n in ast.walk(prep.node) if isinstance(n, ast.If) and any(isinstance(b, ast.Return) and
-             (b.value is None or (isinstance(b.value, ast.Constant) and b.value.value is None)) for b in n.body)]
-    for key, want_base, want_c in (("start", "%s.end" % prev, 1), ("end", "%s.start" % fv, -1)):
-        main_stores = [n for n in slot_stores(loop, dname, key) if isinstance(n, ast.Assign)]
-        ctx.floor("R1", len(main_stores), 1, "stores of the gap %s in the loop" % key)
-        st = main_stores[-1]
-        base, c = affine(st.value)
-        c_test = c
-        for a in slot_stores(prep.node, dparam, key):
-            an = pcfg.node_for(a).id
-            if isinstance(a, ast.AugAssign) and isinstance(a.value, ast.Constant) and isinstance(a.op, (ast.Add, ast.Sub)) and pcfg.dominates(an, cn):
-                delta = a.value.value if isinstance(a.op, ast.Add) else -a.value.value
-                c += delta
-                if tests and pcfg.dominates(an, pcfg.node_for(tests[0]).id):
-                    c_test += delta
-            elif isinstance(a, ast.Assign):
-                b2, c2 = affine(a.value)
-                if b2 == "%s['%s']" % (dparam, key):
-                    c += c2
-                    if tests and pcfg.dominates(an, pcfg.node_for(tests[0]).id):
-                        c_test += c2
-                else:
-                    base, c = "?" + b2, c2
-        final[key] = (base, c)
-        at_test[key] = c_test
-        ok = (base, c) == (want_base, want_c)
-        ctx.ob("R1", ok, "the gap's %s is %s %+d" % (key, "previous.end" if key == "start" else "next.start", want_c), node=st, func=f,
-               sig="gap %s = %s %+d" % (key, re.sub(r"\b%s\b" % fv, "next", re.sub(r"\b%s\b" % prev, "previous", base)), c))
-    # ---- R2 suppression test
-    ctx.ob("R2", len(tests) == 1, "touching/overlapping neighbours produce no feature (one suppression test returning None)", func=prep,
-           sig="%d suppression test(s) in _prep_for_yield" % len(tests))
-    if len(tests) == 1:
-        t = tests[0]
-        from ..decide import py_pred
-        def resolve(n):
-            s = norm(n)
-            if s == "%s['start']" % dparam:
-                return "s"
-            if s == "%s['end']" % dparam:
-                return "e"
-            return None
+def snapshot(F):
+    return {k: (dict(v) if isinstance(v, dict) else v) for k, v in F.attrs.items()}
+
+
+class Harness:
+    def __init__(self, ctx):
+        self.ctx = ctx
+        self.merge_calls = []
+        self.children_calls = []
+
+    def interp(self, strand="+", exons=None):
+        it = Interp(self.ctx)
+        H = self
+
+        def fr(i, pos, kw, node):
+            o = Opaque("new", "Feature")
+            o.attrs.update(kw)
+            return o
+
+        def ma(i, pos, kw, node):
+            H.merge_calls.append((list(pos), dict(kw)))
+            out = {}
+            for a in pos:
+                if isinstance(a, dict):
+                    for k, v in a.items():
+                        out.setdefault(k, [])
+                        out[k] = out[k] + [x for x in v if x not in out[k]]
+            return out
+
+        def ch(i, pos, kw, node):
+            H.children_calls.append((list(pos), dict(kw)))
+            if kw.get("featuretype") is None:
+                return [feat("T", "chr1", 1, 100, strand=strand, ft="mRNA")]
+            return list(exons) if exons is not None else [feat("E1", "chr1", 10, 20, strand=strand), feat("E2", "chr1", 30, 40, strand=strand)]
+        it.summaries["interface.FeatureDB._feature_returner"] = fr
+        it.summaries["helpers.merge_attributes"] = ma
+        it.summaries["interface.FeatureDB.features_of_type"] = lambda i, pos, kw, node: [feat("G", "chr1", 1, 100, ft="gene")]
+        it.summaries["interface.FeatureDB.children"] = ch
+        return it
+
+    def run(self, func, args, **kw):
+        it = self.interp(**kw)
+        so = Opaque("self", "obj")
+        so.attrs["dialect"] = Opaque("DIALECT", "dict")
         try:
-            pred = py_pred(t.test, resolve)
-            bad = None
-            ds = at_test["start"] - final["start"][1]
-            de = at_test["end"] - final["end"][1]
-            for s in range(-4, 5):
-                for e in range(-4, 5):
-                    # s, e are the FINAL coordinates; the test sees them shifted by what is applied after it
-                    if bool(pred({"s": s + ds, "e": e + de})) != (s > e):
-                        bad = (s, e)
-            ctx.ob("R2", bad is None, "a gap is suppressed exactly when its final start > end (one-base gaps are kept)", node=t, func=prep,
-                   sig="suppression test `%s` ≡ start > end" % norm(t.test) if bad is None else
-                   "suppression test `%s` wrong for final (start, end) = %s" % (norm(t.test), bad))
-        except ValueError:
-            ctx.ob("R2", False, "the suppression test compares the gap's start and end", node=t, func=prep, sig="suppression test %s" % norm(t.test))
-        ok = pcfg.dominates(pcfg.node_for(t).id, cn)
-        ctx.ob("R2", ok, "the suppression test precedes the construction of the feature", node=t, func=prep,
-               sig="suppression dominates construction" if ok else "feature constructed before the suppression test", nontrivial=False)
-    # the yield is guarded by the truth of the finalised feature
-    for c in pcalls:
-        st = None
-        for p in parents(c):
-            if isinstance(p, ast.Assign):
-                st = p
-                break
-        nm = st.targets[0].id if st is not None and isinstance(st.targets[0], ast.Name) else None
-        ys = [y for y in ast.walk(loop) if isinstance(y, ast.Yield) and is_name(y.value, nm) and y.lineno > c.lineno]
-        ok = bool(ys) and any((nm, True) in [(norm(t), pol) for t, pol in guards_of(y, f.node)] for y in ys[:1])
-        ctx.ob("R2", ok, "a suppressed gap (None) is not yielded", node=c, func=f, sig="yield of %s guarded by its truth" % nm if ok else "yield of %s unguarded" % nm, nontrivial=False)
-    # bin recomputed from the final coordinates
-    bc = [c for c in calls_in(prep.node) if norm(c.func) == "bins.bins"]
-    ok = bool(bc) and [norm(a) for a in bc[0].args[:2]] == ["%s['start']" % dparam, "%s['end']" % dparam]
-    ctx.ob("R1", ok, "the gap's bin is recomputed from its final coordinates", func=prep, sig="gap bin := %s" % (norm(bc[0]) if bc else None), nontrivial=False)
-    return f, loop, fv, prev, dname, pcalls
+            traces = it.run(func, args, self_obj=so)
+        except Unsupported as e:
+            self.ctx.require(False, "%s outside the analysable subset: %s" % (func.qual, e))
+        self.ctx.require(len(traces) == 1, "%s forks on concrete input (%d paths)" % (func.qual, len(traces)))
+        t = traces[0]
+        ys = [e[1] for e in t.events if e[0] == "yield"]
+        return ys, t
 
 
-def const_prop(cfg, var, func_node):
-    """Forward constant propagation for one integer local over the CFG.
-    Returns {node id: value at entry} with value in int | 'TOP' | None(bottom)."""
-    IN = {n.id: None for n in cfg.nodes}
-    OUT = {n.id: None for n in cfg.nodes}
-
-    def transfer(node, v):
-        st = node.stmt
-        if isinstance(st, ast.Assign) and len(st.targets) == 1 and is_name(st.targets[0], var) and node.kind == "stmt":
-            if isinstance(st.value, ast.Constant) and isinstance(st.value.value, int):
-                return st.value.value
-            return "TOP"
-        if isinstance(st, ast.AugAssign) and is_name(st.target, var) and node.kind == "stmt":
-            if isinstance(v, int) and isinstance(st.value, ast.Constant) and isinstance(st.op, ast.Add):
-                return v + st.value.value
-            if isinstance(v, int) and isinstance(st.value, ast.Constant) and isinstance(st.op, ast.Sub):
-                return v - st.value.value
-            return "TOP" if v is not None else None
-        if isinstance(st, (ast.For,)) and node.kind == "loop":
-            if any(isinstance(x, ast.Name) and x.id == var for x in ast.walk(st.target)):
-                return "TOP"
-        return v
-
-    def join(a, b):
-        if a is None:
-            return b
-        if b is None:
-            return a
-        if a == b:
-            return a
-        return "TOP"
-    IN[cfg.entry.id] = None  # unbound: reading it raises, so it contributes no value
-    changed = True
-    it = 0
-    while changed and it < 200:
-        changed = False
-        it += 1
-        for n in cfg.nodes:
-            v = IN[n.id] if n.id == cfg.entry.id else None
-            if n.id != cfg.entry.id:
-                for p, _l in cfg.pred[n.id]:
-                    v = join(v, OUT[p])
-            if v != IN[n.id]:
-                IN[n.id] = v
-                changed = True
-            o = transfer(n, IN[n.id])
-            if o != OUT[n.id]:
-                OUT[n.id] = o
-                changed = True
-    return IN
-
-
-def r3(ctx, f, loop, fv, prev):
-    cfg = cfg_of(f)
-    # the seqid-change branch: an `if` comparing the chromosomes of current and previous
-    branches = [n for n in loop.body if isinstance(n, ast.If) and isinstance(n.test, ast.Compare) and isinstance(n.test.ops[0], ast.NotEq)
-                and {norm(n.test.left), norm(n.test.comparators[0])} in ({"%s.chrom" % fv, "%s.chrom" % prev}, {"%s.seqid" % fv, "%s.seqid" % prev})]
-    ctx.ob("R3", len(branches) == 1, "a change of seqid is recognised by comparing the neighbours' seqids", node=loop, func=f,
-           sig="%d seqid-change branch(es)" % len(branches))
-    if len(branches) != 1:
-        return
-    br = branches[0]
-    ends = br.body[-1]
-    ok = isinstance(ends, ast.Continue)
-    ctx.ob("R3", ok, "after a change of seqid the pass ends without building a gap for this pair", node=br, func=f,
-           sig="seqid-change branch ends with continue" if ok else "seqid-change branch falls through to the gap construction")
-    re_init = [n for n in br.body if isinstance(n, ast.Assign) and is_name(n.targets[0], prev) and is_name(n.value, fv)]
-    ctx.ob("R3", bool(re_init), "the first feature of the new seqid becomes the previous feature", node=br, func=f,
-           sig="seqid-change branch restarts from the current feature" if re_init else "seqid-change branch keeps the old previous feature")
-    ys = [y for y in ast.walk(br) if isinstance(y, ast.Yield)]
-    for y in ys:
-        # every yield in this branch must be dead: decide its guards by constant propagation
-        dead = False
-        why = "unguarded"
-        for t, pol in guards_of(y, br):
-            if isinstance(t, ast.Compare) and isinstance(t.left, ast.Name) and isinstance(t.comparators[0], ast.Constant):
-                var = t.left.id
-                vals = const_prop(cfg, var, f.node)
-                tn = None
-                for p in parents(y):
-                    if isinstance(p, ast.If) and p.test is t:
-                        tn = cfg.node_for(p)
-                v = vals.get(tn.id) if tn is not None else "TOP"
-                why = "%s = %s at the test" % (var, v)
-                if isinstance(v, int):
-                    c = t.comparators[0].value
-                    res = {ast.Gt: v > c, ast.GtE: v >= c, ast.Lt: v < c, ast.LtE: v <= c, ast.Eq: v == c, ast.NotEq: v != c}[type(t.ops[0])]
-                    if res != pol:
-                        dead = True
-        ctx.ob("R3", dead, "no feature is emitted when the seqid changes (a yield in that branch must be unreachable)", node=y, func=f,
-               sig="yield in the seqid-change branch is dead (%s)" % why if dead else "yield in the seqid-change branch is live (%s)" % why,
-               detail=None if dead else "it would re-emit the previous gap, or one spanning two sequences")
-
-
-def r4_r5(ctx, f, loop, fv, prev, dname):
-    # strand
-    st = [n for n in loop.body if isinstance(n, ast.If) and any(isinstance(b, ast.Assign) and norm(b.targets[0]) == "%s['strand']" % dname for b in n.body)]
-    ctx.ob("R4", len(st) == 1, "the gap's strand is decided from both neighbours", node=loop, func=f, sig="%d strand decision(s)" % len(st))
-    if len(st) == 1:
-        n = st[0]
-        t = n.test
-        sides = {norm(t.left), norm(t.comparators[0])} if isinstance(t, ast.Compare) and len(t.ops) == 1 else set()
-        ok_sides = sides == {"%s.strand" % prev, "%s.strand" % fv}
-        tv = norm(n.body[0].value)
-        ev = norm(n.orelse[0].value) if n.orelse and isinstance(n.orelse[0], ast.Assign) else None
-        if ok_sides and isinstance(t.ops[0], ast.NotEq):
-            ok = tv == "'.'" and ev in ("%s.strand" % fv, "%s.strand" % prev)
-        elif ok_sides and isinstance(t.ops[0], ast.Eq):
-            ok = ev == "'.'" and tv in ("%s.strand" % fv, "%s.strand" % prev)
-        else:
-            ok = False
-        ctx.ob("R4", ok, "equal strands are kept, different strands give '.'", node=n, func=f,
-               sig="strand: if %s then %s else %s" % (norm(t), tv, ev))
-    ft = [n for n in loop.body if isinstance(n, ast.If) and any(isinstance(b, ast.Assign) and norm(b.targets[0]) == "%s['featuretype']" % dname for b in n.body)]
-    ctx.ob("R4", len(ft) == 1, "the gap's type is decided once", node=loop, func=f, sig="%d featuretype decision(s)" % len(ft), nontrivial=False)
-    if len(ft) == 1:
-        n = ft[0]
-        a, b = n.body[0].value, (n.orelse[0].value if n.orelse else None)
-        t = norm(n.test)
-        if t == "new_featuretype is None":
-            auto, given = a, b
-        elif t in ("new_featuretype is not None", "new_featuretype"):
-            auto, given = b, a
-        else:
-            auto = given = None
-        ok = given is not None and norm(given) == "new_featuretype"
-        ctx.ob("R4", ok, "a given new_featuretype is used as is", node=n, func=f, sig="type when given: %s" % (norm(given) if given is not None else t))
-        from .c04 import fmt_shape
-        sh = fmt_shape(auto) if auto is not None else None
-        ok = sh == ["inter_", ("expr", "%s.featuretype" % prev), "_", ("expr", "%s.featuretype" % fv)]
-        ctx.ob("R4", ok, "otherwise the type is inter_<previous type>_<next type>", node=n, func=f,
-               sig="automatic type %s" % ([x if isinstance(x, str) else re.sub(r"\b%s\b" % fv, "next", re.sub(r"\b%s\b" % prev, "previous", x[1])) for x in sh] if sh else None))
-    # attributes
-    mc = [c for c in calls_in(f.node) if norm(c.func) == "helpers.merge_attributes" and loop in list(parents(c))]
-    ctx.ob("R5", len(mc) == 1, "attributes are united by helpers.merge_attributes", node=loop, func=f, sig="%d merge_attributes call(s)" % len(mc))
-    if len(mc) == 1:
-        c = mc[0]
-        args = [norm(a) for a in c.args]
-        ok = args == ["attribute_func(%s.attributes)" % prev, "attribute_func(%s.attributes)" % fv] and norm(kwarg(c, "numeric_sort") or ast.Constant(value=None)) == "numeric_sort"
-        ctx.ob("R5", ok, "the union is taken over (previous, next) attributes with the caller's numeric_sort", node=c, func=f,
-               sig="merge_attributes(%s, numeric_sort=%s)" % (", ".join(args), norm(kwarg(c, "numeric_sort")) if kwarg(c, "numeric_sort") is not None else None))
-        g = [(norm(t), pol) for t, pol in guards_of(c, loop)]
-        ctx.ob("R5", g == [("merge_attributes", True)], "...exactly when merge_attributes is on", node=c, func=f, sig="union guarded by %s" % g, nontrivial=False)
-        cfg = cfg_of(f)
-        ua = [x for x in calls_in(f.node) if call_attr(x) == "update" and x.args and is_name(x.args[0], "update_attributes")]
-        ok = bool(ua) and cfg.node_for(ua[0]).id in cfg.reachable(cfg.node_for(c).id)
-        ctx.ob("R5", ok, "update_attributes is applied after the union", func=f, sig="update_attributes applied after merging" if ok else "update_attributes not applied after merging")
-        st = [n for n in loop.body if isinstance(n, ast.Assign) and norm(n.targets[0]) == "%s['attributes']" % dname]
-        ok = bool(st) and bool(ua) and st[-1].lineno > ua[0].lineno and is_name(st[-1].value, norm(ua[0].func.value))
-        ctx.ob("R5", ok, "the gap carries the united (and updated) attributes", func=f, sig="gap attributes := %s" % (norm(st[-1].value) if st else None), nontrivial=False)
-    prep = [g for lst in f.nested.values() for g in lst if g.name == "_prep_for_yield"][0]
-    j = [c for c in calls_in(prep.node) if call_attr(c) == "join" and const_str(c.func.value) is not None and "ID" in norm(c)]
-    ok = bool(j) and const_str(j[0].func.value) == "-"
-    ctx.ob("R5", ok, "several ID values are joined by '-' into one", func=prep, sig="ID values joined by %r" % (const_str(j[0].func.value) if j else None))
-    g = []
-    if j:
-        g = [norm(t) for t, pol in guards_of(j[0], prep.node) if pol]
-    ctx.ob("R5", any("len(" in x and "> 1" in x for x in g), "...only when there are several", func=prep, sig="ID join guard %s" % g, nontrivial=False)
-
-
-def _label_table(body, upto):
-    """Evaluate the label cascade for (side, strand) in order."""
-    out = {}
-    for side in ("left", "right"):
-        for strand in ("+", "-", "."):
-            env = {"side": side, "strand": strand}
-            val = {}
-
-            def ev(t):
-                if isinstance(t, ast.Compare) and len(t.ops) == 1 and isinstance(t.left, ast.Name) and isinstance(t.comparators[0], ast.Constant):
-                    r = env.get(t.left.id) == t.comparators[0].value
-                    return r if isinstance(t.ops[0], ast.Eq) else (not r)
-                if isinstance(t, ast.BoolOp):
-                    vs = [ev(v) for v in t.values]
-                    return all(vs) if isinstance(t.op, ast.And) else any(vs)
-                raise ValueError(norm(t))
-
-            def run(stmts):
-                for st in stmts:
-                    if st is upto:
-                        return True
-                    if isinstance(st, ast.Assign) and isinstance(st.targets[0], ast.Name):
-                        if isinstance(st.value, ast.Constant):
-                            val[st.targets[0].id] = st.value.value
-                        elif isinstance(st.value, ast.Subscript) and isinstance(st.value.value, ast.Dict):
-                            d = {}
-                            for k, v in zip(st.value.value.keys, st.value.value.values):
-                                kk = tuple(e.value for e in k.elts) if isinstance(k, ast.Tuple) else getattr(k, "value", None)
-                                d[kk] = getattr(v, "value", None)
-                            key = st.value.slice
-                            kk = tuple(env.get(e.id) for e in key.elts) if isinstance(key, ast.Tuple) else env.get(getattr(key, "id", None))
-                            val[st.targets[0].id] = d.get(kk)
-                        elif isinstance(st.value, ast.Call) and call_attr(st.value) == "get" and isinstance(st.value.func.value, ast.Dict):
-                            d = {}
-                            for k, v in zip(st.value.func.value.keys, st.value.func.value.values):
-                                kk = tuple(e.value for e in k.elts) if isinstance(k, ast.Tuple) else getattr(k, "value", None)
-                                d[kk] = getattr(v, "value", None)
-                            key = st.value.args[0]
-                            kk = tuple(env.get(e.id) for e in key.elts) if isinstance(key, ast.Tuple) else env.get(getattr(key, "id", None))
-                            dflt = st.value.args[1].value if len(st.value.args) > 1 and isinstance(st.value.args[1], ast.Constant) else None
-                            val[st.targets[0].id] = d.get(kk, dflt)
-                    elif isinstance(st, ast.If):
-                        try:
-                            t = ev(st.test)
-                        except ValueError:
-                            continue
-                        if run(st.body if t else st.orelse):
-                            return True
-                return False
-            run(body)
-            out[(side, strand)] = val.get("new_featuretype")
-    return out
-
-
-def r6_r7(ctx):
-    ss = require_func(ctx, "interface.FeatureDB.create_splice_sites")
-    ic = [c for c in calls_in(ss.node) if call_attr(c) == "interfeatures"]
-    ctx.require(ic, "create_splice_sites no longer calls interfeatures")
-    iloop = enclosing(ic[0], ast.For)
-    ctx.require(iloop is not None and isinstance(iloop.target, ast.Name), "create_splice_sites no longer loops over interfeatures")
-    sv = iloop.target.id
-    geo = {}
-    for n in ast.walk(iloop):
-        if isinstance(n, ast.Assign) and isinstance(n.targets[0], ast.Attribute) and is_name(n.targets[0].value, sv):
-            g = [(norm(t), pol) for t, pol in guards_of(n, iloop)]
-            side = None
-            for t, pol in g:
-                if pol and t in ("side == 'left'", "side == 'right'"):
-                    side = t.split("'")[1]
-            geo[(side, n.targets[0].attr)] = affine(n.value)
-    want = {("left", "end"): ("%s.start" % sv, 1), ("right", "start"): ("%s.end" % sv, -1)}
-    for k, w in want.items():
-        ctx.ob("R6", geo.get(k) == w, "the %s splice site is the two bases %s" % (k[0], "[start, start+1]" if k[0] == "left" else "[end-1, end]"), func=ss,
-               sig="%s site %s := %s" % (k[0], k[1], "%s %+d" % geo[k] if k in geo else None))
-    extra = [k for k in geo if k not in want]
-    ctx.ob("R6", not extra, "nothing else of the intron's coordinates is changed", func=ss, sig="other coordinate stores %s" % sorted(map(str, extra)), nontrivial=False)
-    child_loop = enclosing(iloop, ast.For)
-    ctx.require(child_loop is not None, "create_splice_sites structure changed")
-    table = _label_table(child_loop.body, iloop)
-    want_t = {("left", "+"): "five_prime_cis_splice_site", ("left", "-"): "three_prime_cis_splice_site",
-              ("right", "+"): "three_prime_cis_splice_site", ("right", "-"): "five_prime_cis_splice_site",
-              ("left", "."): "splice_site", ("right", "."): "splice_site"}
-    for k in sorted(want_t):
-        ctx.ob("R6", table.get(k) == want_t[k], "a %s site on a '%s' transcript is labelled %s" % (k[0], k[1], want_t[k]), func=ss,
-               sig="label(%s, %s) = %s" % (k[0], k[1], table.get(k)))
-    st = [n for n in ast.walk(child_loop) if isinstance(n, ast.Assign) and is_name(n.targets[0], "strand")]
-    cv = child_loop.target.id if isinstance(child_loop.target, ast.Name) else None
-    ok = bool(st) and norm(st[0].value) == "%s.strand" % cv
-    ctx.ob("R6", ok, "the label follows the transcript's strand", func=ss, sig="strand := %s" % (norm(st[0].value) if st else None), nontrivial=False)
-    sides = enclosing(child_loop, ast.For)
-    ok = sides is not None and isinstance(sides.iter, (ast.List, ast.Tuple)) and sorted(e.value for e in sides.iter.elts) == ["left", "right"]
-    ctx.ob("R6", ok, "both sides of every intron are produced", func=ss, sig="sides iterated: %s" % (norm(sides.iter) if sides is not None else None))
-    nf = kwarg(ic[0], "new_featuretype")
-    ctx.ob("R6", nf is not None and norm(nf) == "new_featuretype", "the label is the site's featuretype", func=ss, sig="interfeatures(new_featuretype=%s)" % (norm(nf) if nf is not None else None), nontrivial=False)
-    # ---- R7
-    for qual in ("interface.FeatureDB.create_introns", "interface.FeatureDB.create_splice_sites"):
-        g = require_func(ctx, qual)
-        cc = [c for c in calls_in(g.node) if call_attr(c) == "children" and kwarg(c, "order_by") is not None]
-        ctx.floor("R7", len(cc), 1, "exon queries in %s" % g.name)
-        for c in cc:
-            lv, ft, ob = kwarg(c, "level"), kwarg(c, "featuretype"), kwarg(c, "order_by")
-            ok = lv is not None and norm(lv) == "1" and ft is not None and norm(ft) == "exon_featuretype" and const_str(ob) == "start" and kwarg(c, "reverse") is None
-            ctx.ob("R7", ok, "%s takes each transcript's level-1 exons of the requested type ordered by start" % g.name, node=c, func=g,
-                   sig="%s exons: %s" % (g.name, norm(c)))
-            st = None
-            for p in parents(c):
-                if isinstance(p, ast.Assign):
-                    st = p
-            nm = st.targets[0].id if st is not None else None
-            uses = [x for x in calls_in(g.node) if call_attr(x) == "interfeatures" and x.args and is_name(x.args[0], nm)]
-            ctx.ob("R7", bool(uses), "...and hands them to interfeatures", node=c, func=g, sig="%s exons -> interfeatures" % g.name if uses else "%s exons unused" % g.name, nontrivial=False)
-        for x in [x for x in calls_in(g.node) if call_attr(x) == "interfeatures"]:
-            for k in ("merge_attributes", "numeric_sort"):
-                v = kwarg(x, k)
-                ctx.ob("R7", v is not None and norm(v) == k, "%s forwards %s" % (g.name, k), node=x, func=g, sig="%s %s=%s" % (g.name, k, norm(v) if v is not None else None), nontrivial=False)
-        # grandparent / parent grouping
-        ch = [c for c in calls_in(g.node, own=False) if call_attr(c) == "children" and kwarg(c, "order_by") is None]
-        ok = any(kwarg(c, "level") is not None and norm(kwarg(c, "level")) == "1" for c in ch)
-        ctx.ob("R7", ok, "%s: transcripts are the level-1 children of each grandparent feature" % g.name, func=g,
-               sig="%s transcripts: %s" % (g.name, [norm(c) for c in ch]), nontrivial=False)
-
-
-def r8(ctx, f, loop, fv, prev):
-    bad = []
-    for n in ast.walk(f.node):
-        tg = []
-        if isinstance(n, ast.Assign):
-            tg = n.targets
-        elif isinstance(n, ast.AugAssign):
-            tg = [n.target]
-        for t in tg:
-            b = t
-            while isinstance(b, (ast.Attribute, ast.Subscript)):
-                b = b.value
-            if isinstance(b, ast.Name) and b.id in (fv, prev) and not isinstance(t, ast.Name):
-                bad.append(n)
-    for n in ast.walk(f.node):
-        if isinstance(n, ast.Call) and isinstance(n.func, ast.Attribute) and n.func.attr in ("update", "append", "extend", "pop", "setdefault", "clear"):
-            b = n.func.value
-            while isinstance(b, (ast.Attribute, ast.Subscript)):
-                b = b.value
-            if isinstance(b, ast.Name) and b.id in (fv, prev):
-                bad.append(n)
-    ctx.ob("R8", not bad, "interfeatures never stores into its input features", func=f,
-           sig="no store through the inputs" if not bad else "store through an input: %s" % norm(bad[0]))
-    init = [g for lst in f.nested.values() for g in lst if g.name == "_init_interfeature"]
-    if init:
-        g = init[0]
-        ok = any(call_attr(c) == "astuple" for c in calls_in(g.node))
-        ctx.ob("R8", ok, "the working record is built from a copy (astuple) of the first feature", func=g,
-               sig="_init_interfeature copies through astuple()" if ok else "_init_interfeature aliases the input")
+def gaps(ys):
+    return [(y.attrs.get("seqid"), y.attrs.get("start"), y.attrs.get("end")) if isinstance(y, Opaque) else y for y in ys]
 
 
 def check(ctx):
     ctx.explanation = (
-        "Affine slot tracking from the stores of the gap's start/end through _prep_for_yield's adjustments to the feature construction "
-        "(net previous.end+1 .. next.start-1, wherever the +-1 is written); the suppression test is compiled and compared with "
-        "'final start > final end' on a grid; constant propagation over the CFG shows the yield in the seqid-change branch dead; strand / "
-        "type / attribute rules are def-use facts; the splice-site label cascade is evaluated in order over {left,right} x {+,-,.}; "
-        "create_introns/create_splice_sites must query level-1 children ordered by start. Does not decide the N-1 law or exact outputs "
-        "over all ordered lists (runtime data).")
-    f, loop, fv, prev, dname, pcalls = r1_r2(ctx)
-    r3(ctx, f, loop, fv, prev)
-    r4_r5(ctx, f, loop, fv, prev, dname)
-    r6_r7(ctx)
-    r8(ctx, f, loop, fv, prev)
+        "interfeatures, create_introns and create_splice_sites are evaluated abstractly (partitioned dataflow; no execution) on short lists of "
+        "features placed on the threshold points of the order predicates involved: neighbours 2, 1, 0 and -1 bases apart, seqid changes "
+        "(also right after a gap), equal/different strands, given/automatic type, attribute merging on/off with symbolic values. The yielded "
+        "features, and the arguments reaching merge_attributes and children(), are compared with the property. Does not decide the N-1 law "
+        "or exact outputs over all ordered lists (runtime data); the scenarios cover each decision of the code once.")
+    f = require_func(ctx, "interface.FeatureDB.interfeatures")
+    H = Harness(ctx)
+    fp = [p for p in f.params if p != "self"][0]
+    # ------------------------------------------------------------- R1 / R2 geometry
+    for label, b_start, want in (("two bases apart", 23, [("chr1", 21, 22)]), ("one base apart", 22, [("chr1", 21, 21)]),
+                                 ("touching", 21, []), ("overlapping by one", 20, []), ("nested", 12, [])):
+        ys, t = H.run(f, {fp: [feat("A", "chr1", 10, 20), feat("B", "chr1", b_start, 40)]})
+        rule = "R1" if want else "R2"
+        ctx.ob(rule, gaps(ys) == want,
+               "the gap between neighbours is previous.end+1 .. next.start-1; touching or overlapping neighbours produce no feature (one-base gaps are kept)",
+               func=f, sig="A=10..20, B=%d..40 (%s) -> %s" % (b_start, label, gaps(ys)))
+    ys, t = H.run(f, {fp: [feat("A", "chr1", 10, 20), feat("B", "chr1", 30, 40), feat("C", "chr1", 50, 60)]})
+    ctx.ob("R1", gaps(ys) == [("chr1", 21, 29), ("chr1", 41, 49)], "every adjacent pair yields its gap, in order (after each pair the current feature becomes the previous one)", func=f,
+           sig="three features -> %s" % gaps(ys))
+    ys, t = H.run(f, {fp: [feat("A", "chr1", 200000, 200010), feat("B", "chr1", 400000, 400010)]})
+    okb = len(ys) == 1 and isinstance(ys[0], Opaque) and ys[0].attrs.get("bin") == _bin_of(ctx, 200011, 399999)
+    ctx.ob("R1", okb, "the gap's bin is recomputed from its final coordinates", func=f, sig="gap 200011..399999 bin %s" % (ys[0].attrs.get("bin") if ys and isinstance(ys[0], Opaque) else None),
+           nontrivial=False)
+    ys, t = H.run(f, {fp: [feat("A", "chr1", 10, 20)]})
+    ctx.ob("R1", ys == [], "a single feature has no neighbour, hence no gap", func=f, sig="one feature -> %s" % gaps(ys), nontrivial=False)
+    ys, t = H.run(f, {fp: []})
+    ctx.ob("R1", ys == [], "no features, no gaps", func=f, sig="no features -> %s" % gaps(ys), nontrivial=False)
+    # ------------------------------------------------------------- R3 seqid changes
+    ys, t = H.run(f, {fp: [feat("A", "chr1", 10, 20), feat("B", "chr2", 30, 40)]})
+    ctx.ob("R3", ys == [], "no feature is emitted when the seqid changes (no gap spans two sequences)", func=f, sig="chr1 then chr2 -> %s" % gaps(ys))
+    ys, t = H.run(f, {fp: [feat("A", "chr1", 10, 20), feat("B", "chr1", 30, 40), feat("C", "chr2", 5, 9), feat("D", "chr2", 20, 30)]})
+    ctx.ob("R3", gaps(ys) == [("chr1", 21, 29), ("chr2", 10, 19)],
+           "a change of seqid neither re-emits the previous gap nor drops the next one: the first feature of the new seqid becomes the previous feature", func=f,
+           sig="chr1 x2 then chr2 x2 -> %s" % gaps(ys))
+    ys, t = H.run(f, {fp: [feat("A", "chr1", 10, 20), feat("C", "chr2", 5, 9), feat("D", "chr2", 20, 30), feat("E", "chr1", 50, 60)]})
+    ctx.ob("R3", gaps(ys) == [("chr2", 10, 19)], "each run of one seqid is handled on its own", func=f, sig="chr1, chr2 x2, chr1 -> %s" % gaps(ys), nontrivial=False)
+    # ------------------------------------------------------------- R4 strand and type
+    for sa, sb, want in (("+", "+", "+"), ("-", "-", "-"), ("+", "-", "."), ("-", "+", "."), (".", "+", ".")):
+        ys, t = H.run(f, {fp: [feat("A", "chr1", 10, 20, strand=sa), feat("B", "chr1", 30, 40, strand=sb)]})
+        got = ys[0].attrs.get("strand") if ys and isinstance(ys[0], Opaque) else None
+        ctx.ob("R4", got == want, "equal strands are kept, different strands give '.'", func=f, sig="strands %s,%s -> %r" % (sa, sb, got))
+    for strands, want in ((("+", "-", "-"), [".", "-"]), (("-", "+", "+"), [".", "+"]), (("+", "+", "-"), ["+", "."])):
+        ys, t = H.run(f, {fp: [feat("A", "chr1", 10, 20, strand=strands[0]), feat("B", "chr1", 30, 40, strand=strands[1]), feat("C", "chr1", 50, 60, strand=strands[2])]})
+        got = [y.attrs.get("strand") for y in ys if isinstance(y, Opaque)]
+        ctx.ob("R4", got == want, "each gap's strand is decided from its own two neighbours (nothing carries over from an earlier pair)", func=f,
+               sig="strands %s -> %s" % (",".join(strands), got))
+    ys, t = H.run(f, {fp: [feat("A", "chr1", 10, 20, ft="exon"), feat("B", "chr1", 30, 40, ft="CDS")]})
+    got = ys[0].attrs.get("featuretype") if ys and isinstance(ys[0], Opaque) else None
+    ctx.ob("R4", got == "inter_exon_CDS", "without new_featuretype the type is inter_<previous type>_<next type>", func=f, sig="automatic type %r" % (got,))
+    ys, t = H.run(f, {fp: [feat("A", "chr1", 10, 20), feat("B", "chr1", 30, 40)], "new_featuretype": "intron"})
+    got = ys[0].attrs.get("featuretype") if ys and isinstance(ys[0], Opaque) else None
+    ctx.ob("R4", got == "intron", "a given new_featuretype is used as is", func=f, sig="type when given: %r" % (got,))
+    ys, t = H.run(f, {fp: [feat("A", "chr1", 10, 20), feat("B", "chr1", 30, 40)]})
+    got = ys[0].attrs.get("source") if ys and isinstance(ys[0], Opaque) else None
+    ctx.ob("R4", got == "gffutils_derived", "derived features are marked by their source", func=f, sig="gap source %r" % (got,), nontrivial=False)
+    # ------------------------------------------------------------- R5 attributes
+    v1, v2, v3 = Sym("v1", "str", True), Sym("v2", "str", True), Sym("v3", "str", True)
+    A = feat("A", "chr1", 10, 20, attrs={"ID": [v1], "x": [v2]})
+    B = feat("B", "chr1", 30, 40, attrs={"ID": [v3]})
+    ns = Sym("numeric_sort", "any", True)
+    H.merge_calls = []
+    ys, t = H.run(f, {fp: [A, B], "merge_attributes": True, "numeric_sort": ns})
+    ok = len(H.merge_calls) == 1 and len(H.merge_calls[0][0]) == 2 and H.merge_calls[0][0][0] == A.attrs["attributes"] and H.merge_calls[0][0][1] == B.attrs["attributes"] \
+        and getattr(H.merge_calls[0][1].get("numeric_sort"), "name", None) == "numeric_sort"
+    ctx.ob("R5", ok, "attributes are united by helpers.merge_attributes over (previous, next) with the caller's numeric_sort", func=f,
+           sig="merge_attributes called %d time(s)%s" % (len(H.merge_calls), " with (previous, next, numeric_sort)" if ok else ""))
+    got = ys[0].attrs.get("attributes") if ys and isinstance(ys[0], Opaque) else None
+    okj = isinstance(got, dict) and list(got.get("x", [])) == [v2] and len(got.get("ID", [])) == 1 and _render(got["ID"][0]) == "v1-v3"
+    ctx.ob("R5", okj, "the gap carries the united attributes; several ID values are joined by '-' into one", func=f,
+           sig="gap attributes %s" % ({k: [_render(x) for x in v] for k, v in got.items()} if isinstance(got, dict) else got))
+    H.merge_calls = []
+    ys, t = H.run(f, {fp: [A, B], "merge_attributes": False})
+    got = ys[0].attrs.get("attributes") if ys and isinstance(ys[0], Opaque) else None
+    ctx.ob("R5", not H.merge_calls and got == {}, "...exactly when merge_attributes is on (otherwise the gap has no attributes)", func=f,
+           sig="merge off: %d merge call(s), attributes %s" % (len(H.merge_calls), got), nontrivial=False)
+    ys, t = H.run(f, {fp: [feat("A", "chr1", 10, 20, attrs={"ID": [v1]}), feat("B", "chr1", 30, 40, attrs={"ID": [v1]})], "update_attributes": {"ID": [v2], "note": [v3]}})
+    got = ys[0].attrs.get("attributes") if ys and isinstance(ys[0], Opaque) else None
+    ok = isinstance(got, dict) and list(got.get("ID", [])) == [v2] and list(got.get("note", [])) == [v3]
+    ctx.ob("R5", ok, "update_attributes is applied after the union", func=f, sig="with update_attributes: %s" % ({k: [_render(x) for x in v] for k, v in got.items()} if isinstance(got, dict) else got))
+    tf = lambda pos, kw: {"seen": [Sym("af", "str", True)]}
+    from ..absint import Callback
+    H.merge_calls = []
+    ys, t = H.run(f, {fp: [A, B], "attribute_func": Callback("attribute_func", None, fn=tf)})
+    ok = len(H.merge_calls) == 1 and all(isinstance(a, dict) and list(a) == ["seen"] for a in H.merge_calls[0][0])
+    ctx.ob("R5", ok, "a given attribute_func is applied to both attribute sets before the union", func=f, sig="attribute_func applied to %d of 2 inputs" % (
+        sum(1 for a in (H.merge_calls[0][0] if H.merge_calls else []) if isinstance(a, dict) and list(a) == ["seen"])), nontrivial=False)
+    # ------------------------------------------------------------- R8 inputs untouched
+    A, B, C = feat("A", "chr1", 10, 20, attrs={"ID": [v1]}), feat("B", "chr1", 30, 40, attrs={"ID": [v2]}), feat("C", "chr2", 5, 9)
+    before = [snapshot(x) for x in (A, B, C)]
+    # the harness hands the very objects to the code under evaluation (no copy): compare after the run
+    it = H.interp()
+    so = Opaque("self", "obj")
+    try:
+        traces = it.run(f, {fp: [A, B, C]}, self_obj=so, copy_args=False)
+    except Unsupported as e:
+        ctx.require(False, "interfeatures outside the analysable subset: %s" % e)
+    after = [snapshot(x) for x in (A, B, C)]
+    changed = [x.name for x, b_, a_ in zip((A, B, C), before, after) if repr(sorted(b_.items(), key=str)) != repr(sorted(a_.items(), key=str))]
+    ctx.ob("R8", not changed, "interfeatures never stores into its input features", func=f, sig="no store through the inputs" if not changed else "inputs changed by the call: %s" % changed)
+    # ------------------------------------------------------------- R6 / R7 splice sites and introns
+    ss = require_func(ctx, "interface.FeatureDB.create_splice_sites")
+    want_t = {("left", "+"): "five_prime_cis_splice_site", ("left", "-"): "three_prime_cis_splice_site",
+              ("right", "+"): "three_prime_cis_splice_site", ("right", "-"): "five_prime_cis_splice_site",
+              ("left", "."): "splice_site", ("right", "."): "splice_site"}
+    eft = Sym("exon_featuretype", "str", True)
+    for strand in "+-.":
+        H.children_calls = []
+        ys, t = H.run(ss, {"exon_featuretype": eft}, strand=strand)
+        got = [(y.attrs.get("start"), y.attrs.get("end"), y.attrs.get("featuretype")) for y in ys if isinstance(y, Opaque)]
+        left = [g for g in got if g[:2] == (21, 22)]
+        right = [g for g in got if g[:2] == (28, 29)]
+        ctx.ob("R6", len(got) == 2 and len(left) == 1 and len(right) == 1, "both sides of every intron are produced: the left site is [start, start+1], the right site [end-1, end]", func=ss,
+               sig="strand %s: intron 21..29 -> sites %s" % (strand, [g[:2] for g in got]))
+        for side, g in (("left", left), ("right", right)):
+            lab = g[0][2] if g else None
+            ctx.ob("R6", lab == want_t[(side, strand)], "a %s site on a '%s' transcript is labelled %s" % (side, strand, want_t[(side, strand)]), func=ss,
+                   sig="label(%s, %s) = %s" % (side, strand, lab))
+        _children_rule(ctx, H, ss, eft)
+    ci = require_func(ctx, "interface.FeatureDB.create_introns")
+    H.children_calls = []
+    H.merge_calls = []
+    ys, t = H.run(ci, {"exon_featuretype": eft, "numeric_sort": ns})
+    got = [(y.attrs.get("start"), y.attrs.get("end"), y.attrs.get("featuretype")) for y in ys if isinstance(y, Opaque)]
+    ctx.ob("R7", got == [(21, 29, "intron")], "create_introns yields the gaps between a transcript's exons, typed 'intron'", func=ci, sig="exons 10..20, 30..40 -> %s" % got)
+    _children_rule(ctx, H, ci, eft)
+    ok = len(H.merge_calls) == 1 and getattr(H.merge_calls[0][1].get("numeric_sort"), "name", None) == "numeric_sort"
+    ctx.ob("R7", ok, "create_introns forwards merge_attributes / numeric_sort to interfeatures", func=ci, sig="merge_attributes reached with numeric_sort=%s" % (
+        H.merge_calls[0][1].get("numeric_sort") if H.merge_calls else None), nontrivial=False)
+    H.merge_calls = []
+    ys, t = H.run(ci, {"merge_attributes": False})
+    ctx.ob("R7", not H.merge_calls, "create_introns(merge_attributes=False) does not merge", func=ci, sig="%d merge call(s)" % len(H.merge_calls), nontrivial=False)
+    for g_ in (ci, ss):
+        for gp, par in ((Sym("gp", "str", True), Sym("p", "str", True)), (None, None)):
+            it = H.interp()
+            try:
+                traces = it.run(g_, {"grandparent_featuretype": gp, "parent_featuretype": par}, self_obj=Opaque("self", "obj"))
+            except Unsupported as e:
+                ctx.require(False, "%s outside the analysable subset: %s" % (g_.qual, e))
+            ok = all(t_.result[0] == "raise" and t_.result[1] == "ValueError" for t_ in traces)
+            ctx.ob("R7", ok, "%s wants exactly one of grandparent_featuretype / parent_featuretype" % g_.name, func=g_,
+                   sig="%s(%s) -> %s" % (g_.name, "both" if gp is not None else "neither", sorted({t_.result[1] if t_.result[0] == "raise" else "ok" for t_ in traces})), nontrivial=False)
+
+
+def _children_rule(ctx, H, g, eft):
+    exq = [c for c in H.children_calls if c[1].get("featuretype") is not None]
+    ok = bool(exq) and all(c[1].get("level") == 1 and getattr(c[1].get("featuretype"), "name", None) == "exon_featuretype" and c[1].get("order_by") == "start"
+                           and not c[1].get("reverse") and c[0] and getattr(c[0][0], "name", None) == "T" for c in exq)
+    ctx.ob("R7", ok, "%s takes each transcript's level-1 exons of the requested type ordered by start" % g.name, func=g,
+           sig="%s exon queries: %s" % (g.name, sorted({str(sorted((k, getattr(v, "name", v)) for k, v in c[1].items())) for c in exq})))
+    trq = [c for c in H.children_calls if c[1].get("featuretype") is None]
+    ok = bool(trq) and all(c[1].get("level") == 1 and c[0] and getattr(c[0][0], "name", None) == "G" for c in trq)
+    ctx.ob("R7", ok, "%s: transcripts are the level-1 children of each grandparent feature" % g.name, func=g,
+           sig="%s transcript queries: %s" % (g.name, sorted({str(sorted((k, getattr(v, "name", v)) for k, v in c[1].items())) for c in trq})), nontrivial=False)
+
+
+def _render(x):
+    return x.render().replace("⟦", "").replace("⟧", "") if hasattr(x, "render") else getattr(x, "name", x)
+
+
+def _bin_of(ctx, start, end):
+    """bins.bins(start, end, one=True) by abstract evaluation of the package's own function on singleton input."""
+    from ..binsai import BinsInterp
+    from ..binsmodel import bins_consts
+    f = ctx.proj.func("bins.bins")
+    rets = BinsInterp(ctx, f, bins_consts(ctx)).run("gff", True, (start, start), (end, end))
+    return rets[0].value.lo if len(rets) == 1 and hasattr(rets[0].value, "lo") else None
